@@ -48,6 +48,10 @@ def typing_obligations(run, prop, rule, repo, sc, scen, mods=None):
             where, cons, f, ln = ev_where(repo, e, mods)
             run.oblige(rule, (where, cons, 'layout'), False)
             run.add(Finding(prop, rule, where, cons, f'the index order of an unfolding depends on the memory layout of a core ({scen}): {e["detail"]}', f, ln, {'scenario': scen}))
+        elif k == 'sign-scale' and isinstance(e.get('array'), Arr) and any(l.resolve().kind in ('R', 'M') for g in e['array'].legs for l in g):
+            where, cons, f, ln = ev_where(repo, e, mods)
+            run.oblige(rule, (where, cons, 'sign'), False)
+            run.add(Finding(prop, rule, where, cons, f'part of a tensor-train core can be wiped out ({scen}): {e["detail"]}', f, ln, {'scenario': scen}))
         elif k == 'sum-type-error':
             where, cons, f, ln = ev_where(repo, e, mods)
             run.oblige(rule, (where, cons, 'sum'), False)
@@ -71,7 +75,7 @@ def typing_obligations(run, prop, rule, repo, sc, scen, mods=None):
         elif k == 'index-drop':
             legs = [l.resolve() for l in e['legs']]
             bad = [l for l in legs if l.kind == 'M' or (l.kind == 'R' and l.key[0] != 'B')]
-            if bad and isinstance(e['index'], int):
+            if bad and isinstance(e['index'], int) and not (isinstance(e.get('result'), Arr) and e['result'].tags.get('inspected_only')):
                 where, cons, f, ln = ev_where(repo, e, mods)
                 run.oblige(rule, (where, cons, 'index'), False)
                 run.add(Finding(prop, rule, where, cons, f'a constant index selects one slice of a non-trivial tensor index ({scen}): {e["detail"]}', f, ln, {'scenario': scen}))
@@ -368,8 +372,17 @@ def core_iso(core, side):
     if (mx.left_isometry(m) if side == 'LO' else mx.right_isometry(m)):
         return True
     m = mx.canon(m)
-    if mx.fully_known(m) or (len(m) == 1 and m[0][0] == 'src'):
+    if mx.fully_known(m):
         return False
+    if len(m) == 1 and m[0][0] == 'src':
+        # one opaque matrix: a generic input core is not an isometry; an array COMPUTED in a way the normal forms do not follow (an element-wise product with a
+        # vector of signs, ...) is of unknown character
+        root, _par = A._view_root(core)
+        n_ = 0
+        while isinstance(root, Arr) and root.origin == 'getitem' and root.parents and n_ < 4:
+            root, _p2 = A._view_root(root.parents[0])
+            n_ += 1
+        return False if not (isinstance(root, Arr) and root.parents) else None
     return None
 
 
